@@ -295,7 +295,7 @@ func genBatch(rng *rand.Rand, name string, nScopes int, thorough bool, exoticKin
 // witness of every known finding of the property (known_findings.json), so
 // that each is re-observed (KNOWN-FINDING line) or reported as gone.
 //
-//	c08w   core shapes, delimiters . / _   lower-case-first scope names (go/java/dart title-case),
+//	c08w   core shapes, delimiters . / _ and the empty one   lower-case-first scope names (go/java/dart title-case),
 //	       and the witnesses of the two fixed findings (Go '.', Dart $user_)
 //	c08wp  -delim %: one scope with a variable          percent_delimiter (go, java, dart);
 //	       + a static-only prefix and a scope without prefix (correct everywhere: guards)
@@ -352,7 +352,7 @@ func witnessBatches() []*batch {
 		finishBatch(b)
 		return b
 	}
-	core := build(&batch{Name: "c08w", Kind: "witness", Delims: []string{".", "/", "_"}}, []w{
+	core := build(&batch{Name: "c08w", Kind: "witness", Delims: []string{".", "/", "_", ""}}, []w{
 		{"Events", "Upper", []tok{{"foo", false}, {"user", true}}, "Sent", [][]string{{"alice"}, {""}}, "", nil},
 		{"events2", "lower", []tok{{"foo", false}, {"user", true}, {"bar", false}}, "Created", [][]string{{"bob-1"}}, "", nil},
 		{"Plain", "Upper", nil, "Ping", [][]string{{}}, "", nil},
